@@ -79,3 +79,34 @@ ENTRIES += [
          what="view methods: the class function's first parameter ('self') was documented as a required parameter in OpenAPI and OpenRPC",
          witness={'method': {'params': [{'name': 'p0', 'kind': 'PK'}], 'flavour': 'view', 'excluded': False, 'view_ctx': True}}),
 ]
+_A16 = {'errors': 'none', 'error_names': ['Custom2001'], 'tags': [], 'examples': 0, 'summary': False, 'description': False, 'deprecated': None,
+        'servers': False, 'security': False, 'external_docs': False, 'params_schema': False, 'result_schema': False, 'prefix': None}
+_M16 = {'params': [['int', False]], 'ret': 'int', 'doc': 'full', 'ctx': False, 'flavour': 'func', 'custom_name': False, 'annotated': False, 'annot': _A16}
+_O16 = {'servers': False, 'tags': False, 'security': False, 'external_docs': False}
+ENTRIES += [
+    dict(id='KF-C16-1', property='C16', status='known', bucket='C16/meta-schema/openapi-3.0.3', match='openapi30',
+         what="OpenAPI(openapi='3.0.x') documents that carry any JSON schema (pydantic / docstring extractor, or explicit params / result schema "
+              "annotations) fail the OpenAPI 3.0 meta-schema: the schemas use 2020-12 constructs ('const', 'examples', anyOf-null, $defs-style "
+              "unions) that 3.0 Schema Objects do not allow; a repair needs a schema down-converter",
+         witness={'kind': 'openapi-3.0.3', 'extractors': ['pydantic'], 'methods': [_M16], 'endpoints': 1, 'generations': 1, 'spec_opts': _O16, 'path': '/api'}),
+    dict(id='KF-C16-3', property='C16', status='known', bucket='C16/meta-schema', match='empty_path',
+         what="OpenAPI.schema(path='') (what the aiohttp / flask integrations pass when the JSON-RPC endpoint is mounted at the root with an "
+              "empty base path) emits path keys such as '#method' that do not start with '/', which the OpenAPI meta-schemas forbid; "
+              "normalising the key would change the documents every default-configured deployment publishes, so it is recorded, not repaired",
+         witness={'kind': 'openapi-3.1.0', 'extractors': ['base'], 'methods': [_M16], 'endpoints': 1, 'generations': 1, 'spec_opts': _O16, 'path': ''}),
+    dict(id='F24', property='C16', status='fixed', commit='3c07a64', bucket='C16/not-json-encodable/TypeError',
+         what="OpenRPC + DocstringSchemaExtractor: a ':rtype:' without description put the UNSET sentinel into the document (not JSON-encodable)",
+         witness={'kind': 'openrpc', 'extractors': ['docstring'], 'methods': [{**_M16, 'doc': 'bare-types'}], 'endpoints': 1, 'generations': 1, 'spec_opts': _O16, 'path': '/api'}),
+    dict(id='F13', property='C16', status='fixed', commit='27e8030', bucket='C16/purity/annotations-or-user-objects-modified',
+         what="an errors=[...] list shared by two methods grew on every generation and method 2 documented method 1's docstring errors",
+         witness={'kind': 'openapi-3.1.0', 'extractors': ['pydantic', 'docstring'], 'endpoints': 1, 'generations': 2, 'spec_opts': _O16, 'path': '/api',
+                  'methods': [{**_M16, 'doc': 'raises', 'annotated': True, 'annot': {**_A16, 'errors': 'shared'}},
+                              {**_M16, 'doc': 'none', 'annotated': True, 'annot': {**_A16, 'errors': 'shared'}}]}),
+    dict(id='F14', property='C16', status='fixed', commit='90f6205', bucket='C16/isolation',
+         what="a method's component_name_prefix was applied to every method documented after it",
+         witness={'kind': 'openapi-3.1.0', 'extractors': ['pydantic'], 'endpoints': 1, 'generations': 1, 'spec_opts': _O16, 'path': '/api',
+                  'methods': [{**_M16, 'params': [['ModelA', False]], 'annotated': True, 'annot': {**_A16, 'prefix': 'P1'}}, {**_M16, 'params': [['ModelB', False]]}]}),
+    dict(id='F15', property='C16', status='fixed', commit='fb2d3f6', bucket='C16/generation-failed/KeyError',
+         what="OpenRPC with the default extractor raised KeyError: 'properties'",
+         witness={'kind': 'openrpc', 'extractors': ['base'], 'methods': [_M16], 'endpoints': 1, 'generations': 1, 'spec_opts': _O16, 'path': '/api'}),
+]
